@@ -45,6 +45,11 @@ def run(ctx):
         raise vlib.Inconclusive("VACUOUS", "recorded run never produced outcome(s) %s" % missing)
     acc, total = c02.validate_all(ctx, lines, "C10", want_gas_only=True)
     ctx.add("traces_validated_against_impl", total)
+    # "a transaction that exceeds its gas fails ... its message effects are discarded while its fee is still paid":
+    # the same recorded blocks validated WITH the state comparison; only blocks containing an out-of-gas transaction
+    # are judged here (every other state mismatch is C02's subject)
+    c02.validate_all(ctx, lines, "C10", want_gas_only=False, key_filter=lambda key: "oog/" in key)
+    ctx.cov["oog_blocks_state_checked"] = sum(1 for x in lines if x.get("act") == "DeliverTx" and (x.get("res") or {}).get("cls") == "oog")
     # determinism: same seed again, with a restart (new app object, cold caches) before every block
     vlib.handle_driver_results(ctx, res2)
     lines2 = [json.loads(l) for l in open(out2) if l.strip()]
